@@ -149,7 +149,7 @@ func execUtil(e *UtilEv) {
 		e.Counts = []int64{}
 	}
 	e.ResSet, e.ResSet2 = nz(e.ResSet), nz(e.ResSet2)
-	e.ArgsSame = equalPaths(Paths{p0}, Paths{e.Path}) && equalPaths(s0, e.Set)
+	e.ArgsSame = equalPaths(Paths{p0}, Paths{e.Path}) && equalPaths(s0, e.Set) && argsUnchanged()
 	e.Nontriv = len(e.Path) > 1 || len(e.Set) > 0 || len(e.Vals) > 0
 }
 
